@@ -19,7 +19,7 @@ from vmon.libutil import monitored
 
 LEVEL = "exploration"
 SHARDS = {"quick": 16, "thorough": 16}
-MUST = ["accessor.cursor_moved_first", "accessor.order0", "accessor.order1", "accessor.order2", "create.contract_evaluations", "accessor.checks", "reframe.checks", "reframe.socket", "reframe.file-chunked", "reframe.file-short-reads", "reframe.bytes-prefixed", "reframe.twice", "reframe.beyond_20MB", "reframe.train", "reframe.train/bytesio-written", "reframe.train/file-read-size-on-packet-border", "reframe.train/socket-two-packets-per-delivery", "reframe.train/cut-in-last-packet", "reject.checks", "word1.values", "word2.values"]
+MUST = ["accessor.cursor_moved_first", "accessor.order0", "accessor.order1", "accessor.order2", "create.contract_evaluations", "accessor.checks", "reframe.checks", "reframe.socket", "reframe.file-chunked", "reframe.file-short-reads", "reframe.bytes-prefixed", "reframe.twice", "reframe.beyond_20MB", "reframe.train", "reframe.train/bytesio-written", "reframe.train/file-read-size-on-packet-border", "reframe.train/socket-two-packets-per-delivery", "reframe.train/cut-in-last-packet", "reframe.train/socket-two-packets-per-delivery/show_progress", "reject.checks", "word1.values", "word2.values"]
 RULE = ("create_ccsds_packet is called on enumerated field values; a postcondition compares the bytes with the "
         "model's bit-string layout (3+1+1+11+2+14+16 bits, length field = len(data)-1) and the harness compares "
         "every accessor, re-frames the packet through ccsds_generator (bytes, BytesIO, and in rotation: chunked file reads, short reads, a "
@@ -170,7 +170,7 @@ def check_packet(ctx, vals, data, reframe=True):
                 # the stream ends part-way through the last packet (its header complete): whatever the framer yields must still be a
                 # packet whose accessors agree with its own first six bytes - i.e. only the complete ones
                 cutlen = len(tb) - rr.randrange(1, max(2, len(prev) - 6))
-                src_kind = n % 3
+                src_kind = (n // 6) % 3
                 out = []
                 with contextlib.redirect_stdout(io.StringIO()):
                     src = tb[:cutlen] if src_kind == 0 else io.BytesIO(tb[:cutlen]) if src_kind == 1 else \
@@ -198,10 +198,10 @@ def check_packet(ctx, vals, data, reframe=True):
                 kind, passes = "train/bytesio-written", 2     # ... and the same object is framed a second time
             elif mode == 1:
                 src = sources_mod.RecordingFile(tb, "full")
-                kind, kw = "train/file-read-size-on-packet-border", {"buffer_read_size_bytes": len(prev) if n % 2 else len(prev) + len(raw)}
+                kind, kw = "train/file-read-size-on-packet-border", {"buffer_read_size_bytes": len(prev) if (n // 6) % 2 else len(prev) + len(raw)}
             elif mode == 2:
                 src = sources_mod.ScriptedSocket([prev + raw, prev], closed_by_peer=True)     # one delivery holds two whole packets
-                kind, kw = "train/socket-two-packets-per-delivery", {"show_progress": bool(n % 2)}
+                kind, kw = "train/socket-two-packets-per-delivery", {"show_progress": bool((n // 6) % 2)}
             elif mode == 3:
                 src, kind, kw = tb, "train/bytes", {"show_progress": True}
             else:
@@ -216,6 +216,8 @@ def check_packet(ctx, vals, data, reframe=True):
                     g.close()
                 ctx.count("reframe.train")
                 ctx.count(f"reframe.{kind}")
+                if kw.get("show_progress"):
+                    ctx.count(f"reframe.{kind}/show_progress")
                 if s.exc is not None or [bytes(x) for x in out] != train:
                     ctx.violation(f"reframe/{kind}{'/second-pass' if ps else ''}", f"a train of 3 constructed packets ({[len(x) for x in train]} bytes) re-framed from {kind} "
                                   f"(pass {ps + 1}) as {len(out)} packets of lengths {[len(x) for x in out][:5]} / exc {s.exc!r}",
